@@ -526,7 +526,7 @@ def run(chk):
     # model, transfer of the C20 theorems), regenerated when the source changes
     from .. import translate_eqcore
     gen_done, gen_unt = translate_eqcore.translate(chk)
-    chk.lean_build(['PeptVerif.Props.C20', 'PeptVerif.Props.C20Gen'], DRV)
+    chk.lean_build(['PeptVerif.Props.C20', 'PeptVerif.Props.C20Gen', 'PeptVerif.Props.C20Ext'], DRV)
     chk.trusted += [
         'harness/translate_eqcore.py: the reading of the Python subset (comparison chains, None tables, Counter/set comparison, '
         'key-union loop, any([...]) of `is not None` predicates, filtered dict comprehension, in-place clearing) into the '
@@ -618,6 +618,37 @@ def run(chk):
     chk.correspond('eq', DRV, pairs, lambda c: f'eq\t{c[1]}\t{c[2]}', eq_impl,
                    nontrivial_fn=lambda c, im: c[1].count('N') < 9)
     chk.oracle('eq_pairs_symmetric', pairs, o_pair, nontrivial_fn=lambda c: c[1] != c[2], key_fn=lambda c: c[1] + ' ' + c[2])
+
+    # the converse of the round trip (Props/C20Ext.lean: mod_dict_determines / _eq / _text / mod_dict_sensitive, add_empty_dict)
+    # on the implementation: same residues and the same dictionary (compared structurally, in order) => `==`, the same text and
+    # the same fields; not `==` on the same residues => the dictionaries differ; add_mod_dict({}) changes nothing
+    def o_dict_determines(c):
+        lab, da, db = c
+        a, b = annot.undump(da), annot.undump(db)
+        ma, mb = a.mod_dict(), b.mod_dict()
+        same = show_dict(ma, sort=False) == show_dict(mb, sort=False)
+        if a._sequence == b._sequence:
+            if same and not (a == b and b == a):
+                return f'same residues and same mod_dict {show_dict(ma, sort=False)} but the annotations are not == ({lab})'
+            if not same and ma == mb and not (a == b):
+                return f'mod_dict() results compare equal but the annotations do not ({lab})'
+            if same and not has_empty(a) and not has_empty(b):
+                if a.serialize() != b.serialize():
+                    return f'same residues and same mod_dict but {a.serialize()!r} vs {b.serialize()!r} ({lab})'
+                if da != db:
+                    return f'same residues and same mod_dict but fields differ: {da} vs {db} ({lab})'
+        for app in (False, True):
+            e = a.copy()
+            e.add_mod_dict({}, append=app)
+            if annot.dump(e, sort_internal=False) != da:
+                return f'add_mod_dict({{}}, append={app}) changed {da} into {annot.dump(e, sort_internal=False)}'
+        if annot.dump(a, sort_internal=False) != da or annot.dump(b, sort_internal=False) != db:
+            return 'mod_dict / == / serialize changed their argument'
+        return None
+
+    half = pairs[:len(pairs) // 2]
+    chk.oracle('dict_determines', half if (chk.broken() or tier != 'quick') else half[::2], o_dict_determines,
+               nontrivial_fn=lambda c: c[1].count('N') < 9, key_fn=lambda c: c[1] + ' ' + c[2])
 
     # multiset equality of mod lists over a small pool (many coincidences), None vs list
     small = [1, 1.0, 2, 2.0, 'a', 'b', 0, 0.0, -0.0, 1e+16, 10 ** 16, 100, 100.0, 'Oxidation']
@@ -1148,7 +1179,7 @@ def run(chk):
         chk.count('modelled_lines_total', rep['lines_of_modelled_functions'])
         chk.count('modelled_lines_executed', rep['lines_executed'])
     if tier == 'thorough':
-        chk.leanchecker(['PeptVerif.Props.C20', 'PeptVerif.Props.C20Gen', 'PeptVerif.Generated.EqCorePy', 'PeptVerif.Model.AnnotEq', 'PeptVerif.Model.ModDict'])
+        chk.leanchecker(['PeptVerif.Props.C20', 'PeptVerif.Props.C20Gen', 'PeptVerif.Props.C20Ext', 'PeptVerif.Generated.EqCorePy', 'PeptVerif.Model.AnnotEq', 'PeptVerif.Model.ModDict'])
     return chk.finish(classify)
 
 
